@@ -5,7 +5,10 @@ from .expressions import BinaryOperation, Expression, NullSafeBinaryOperation, T
 
 class Negate(UnaryExpression):
     def eval(self, row, schema):
-        return - self.column.eval(row, schema)
+        value = self.column.eval(row, schema)
+        if value is None:
+            return None
+        return - value
 
     def __str__(self):
         return f"(- {self.column})"
